@@ -62,7 +62,7 @@ Section GenericTrace.
                   (mkB (outD s) (inL s) [] (held s) (nslot s)) opens) as [b rs] eqn:E.
       cbn [fst snd mon_step].
       pose proof (run_batch_outcomes ms_select ms_lazy ms_select_some ms_lazy_spec _ _ _ _ _ _ _ E) as Ho.
-      assert (Hb : batch_ok U hs (limL c) m (map (fun x => fst (fst x)) opens) rs (flat_map o_un rs)
+      assert (Hb : batch_ok U hs (limL c) m (map q_reqs opens) rs (flat_map o_un rs)
                             (scope_vec U (b_out b) (b_in b)) = true).
       { unfold batch_ok. fold (reqs_of opens).
         pose proof (outcomes_length _ _ _ _ _ _ _ Ho) as Hlen.
